@@ -1,16 +1,18 @@
 import MsqProofs.Props.C03D
 import MsqProofs.Props.C18T
 import MsqProofs.Props.C03Q2
+import MsqProofs.Lemmas.TDmlQI
 /-!
 # T-parse for the remaining statement classes and the union of all fragments: base definitions (C03 / C01)
 
-Built NEXT to the query developments (`TQ`, `TQ2`), the data-change development (`TDM`) and the CREATE TABLE development (`TD`), whose
-definitions and statements are unchanged.  Namespace `TR`.
+Built NEXT to the query developments (`TQ`, `TQ2`), the data-change developments (`TDM` over `FragQ`; `TDM2` over `FragQ2`, generated from it:
+Lemmas/TDmlQ0-4.lean, with `TDM.FragStmt ⊆ TDM2.FragStmt`: Lemmas/TDmlQI.lean) and the CREATE TABLE development (`TD`), whose definitions
+and statements are unchanged.  Namespace `TR`.
 
 * token-level printers mirroring `PR.prStmt`: `toksDrop`, `toksTruncate`, `toksMsck`, `toksUse`, `toksSet`, `toksAnalyze`, `toksAlter`
   (`toksAlterOp`, `toksColOrIdx`), `toksShowColumns`, `toksCreateAs`, the two constant statements `SHOW DATABASES` / `SHOW TABLES`;
 * `FragRest d s` — the fragment of the new classes (a `Bool`);
-* `FragAny d s` / `toksAny d s` — the union with `TQ2.FragQ2` (queries), `TDM.FragStmt` (data-change statements, WITH) and
+* `FragAny d s` / `toksAny d s` — the union with `TQ2.FragQ2` (queries), `TDM2.FragStmt` (data-change statements, WITH) and
   `TD.FragCreate` (CREATE TABLE);
 * `stopsAny d rest` — what may follow a statement of the union: nothing, or a `;` (a leaf with source `;` that continues nothing);
   `restAfter s rest` — what `pStatement` leaves: CREATE TABLE swallows one `;` itself (`parser.py:2017`), every other statement leaves it.
@@ -65,7 +67,7 @@ def toksSet (c : ConfigStr) : List Tok := opTok "SET" :: (toksCfg c.name ++ TD.e
 def toksAnalyze (d : Gen.D) (t : TableName) (p : Option (List Expr)) (fc cm ns : Bool) : List Tok :=
   opTok "ANALYZE" :: opTok "TABLE" :: tbl t ::
     (if d == .HIVE then
-      TDM.toksPart d noX p ++ (opTok "COMPUTE" :: opTok "STATISTICS" :: (TD.flag fc [opTok "FOR", opTok "COLUMNS"] ++
+      TDM2.toksPart d noX p ++ (opTok "COMPUTE" :: opTok "STATISTICS" :: (TD.flag fc [opTok "FOR", opTok "COLUMNS"] ++
         (TD.flag cm [opTok "CACHE", opTok "METADATA"] ++ TD.flag ns [opTok "NOSCAN"])))
      else [])
 
@@ -75,7 +77,7 @@ def toksColOrIdx (d : Gen.D) : ColOrIdx → List Tok
   | .idx i => TD.toksIndex i
   | .fk k => TD.toksFk k
 /-- the bracket group of a partition list -/
-def partGrp (d : Gen.D) (p : List Expr) : Tok := grp (TDM.joinC (p.map (TQ.toksE3 d noX)))
+def partGrp (d : Gen.D) (p : List Expr) : Tok := grp (TDM2.joinC (p.map (TQ2.toksE4 d noX)))
 /-- one clause of ALTER TABLE (`PR.prAlterOp`) -/
 def toksAlterOp (d : Gen.D) : AlterOp → List Tok
   | .addPartition b p => opTok "ADD" :: (TD.flag b [opTok "IF", opTok "NOT", opTok "EXISTS"] ++ [opTok "PARTITION", partGrp d p])
@@ -96,9 +98,10 @@ def toksAlter (d : Gen.D) (t : TableName) (ops : List AlterOp) : List Tok :=
 /-- `SHOW COLUMNS FROM t, … [WHERE e]` -/
 def toksShowColumns (d : Gen.D) (fr : List FromTable) (wh : Option Expr) : List Tok :=
   opTok "SHOW" :: opTok "COLUMNS" :: (TQ2.toksFrom4 d noX (some fr) ++ TQ2.toksOptE4 d noX "WHERE" wh)
-/-- a query as a statement: of the larger fragment `FragQ2`, or `[WITH …]` in front of a query of `FragQ` (the data-change development) -/
-def toksSel (d : Gen.D) (q : Query) : List Tok := if TQ2.FragQ2 d q then TQ2.toksQ2 d noX q else TDM.toksStmt d (.select q)
-def selOK (d : Gen.D) (q : Query) : Bool := TQ2.FragQ2 d q || TDM.FragStmt d (.select q)
+/-- a query as a statement: `[WITH name AS (q), …]` in front of a query of the larger fragment `FragQ2` (`TDM2.FragStmt`, which contains the
+queries of `FragQ2` with the empty clause; the second alternative only keeps `FragQ2` visible in the definition) -/
+def toksSel (d : Gen.D) (q : Query) : List Tok := if TDM2.FragStmt d (.select q) then TDM2.toksStmt d (.select q) else TQ2.toksQ2 d noX q
+def selOK (d : Gen.D) (q : Query) : Bool := TDM2.FragStmt d (.select q) || TQ2.FragQ2 d q
 /-- `CREATE TABLE t AS [WITH …] <query>` -/
 def toksCreateAs (d : Gen.D) (t : TableName) (q : Query) : List Tok :=
   opTok "CREATE" :: opTok "TABLE" :: tbl t :: opTok "AS" :: toksSel d q
@@ -124,45 +127,45 @@ def colOrIdxOK (d : Gen.D) : ColOrIdx → Bool
   | .idx i => TD.idxOK i.kind i
   | .fk k => TD.fkOK k
 def alterOpOK (d : Gen.D) : AlterOp → Bool
-  | .addPartition _ p => TDM.partOK d (some p)
+  | .addPartition _ p => TDM2.partOK d (some p)
   | .add x => colOrIdxOK d x
   | .modify x => colOrIdxOK d x
   | .change f t => TD.nameOK f && colOrIdxOK d t
   | .renameColumn f t => TD.nameOK f && TD.nameOK t
   | .dropColumn c => TD.nameOK c
-  | .dropPartition _ p => TDM.partOK d (some p)
+  | .dropPartition _ p => TDM2.partOK d (some p)
 /-- **the fragment of the new statement classes** -/
 def FragRest (d : Gen.D) : Stmt → Bool
-  | .dropTable _ t => TDM.tblOKD t
-  | .truncate t => TDM.tblOKD t
-  | .msck t => TDM.tblOKD t
+  | .dropTable _ t => TDM2.tblOKD t
+  | .truncate t => TDM2.tblOKD t
+  | .msck t => TDM2.tblOKD t
   | .use _ => true
   | .set c => cfgOK c.name && cfgOK c.value
-  | .analyze t p fc cm ns => TDM.tblOKD t && (if d == .HIVE then TDM.partOK d p else p.isNone && !fc && !cm && !ns)
-  | .alter t ops => TDM.tblOKD t && !ops.isEmpty && ops.all (alterOpOK d)
+  | .analyze t p fc cm ns => TDM2.tblOKD t && (if d == .HIVE then TDM2.partOK d p else p.isNone && !fc && !cm && !ns)
+  | .alter t ops => TDM2.tblOKD t && !ops.isEmpty && ops.all (alterOpOK d)
   | .showDatabases => true
   | .showTables => true
   | .showColumns fr wh => TQ2.fromOK4 d (some fr) && TQ2.FragO4 d wh
-  | .createTableAs t q => TDM.tblOKD t && selOK d q
+  | .createTableAs t q => TDM2.tblOKD t && selOK d q
   | _ => false
 
 /-! ### the union -/
-/-- **the union of all statement fragments**: a query of `FragQ2`, a statement of `TDM.FragStmt` (DELETE, UPDATE, INSERT, WITH … over
-`FragQ`), a CREATE TABLE of `TD.FragCreate`, or a statement of the new classes -/
+/-- **the union of all statement fragments**: a query of `FragQ2`, a statement of `TDM2.FragStmt` (DELETE, UPDATE, INSERT, WITH … over
+`FragQ2` / `FragE4`; it contains `TDM.FragStmt`, the same over `FragQ`: `TDM2.fragStmt_sub`), a CREATE TABLE of `TD.FragCreate`, or a
+statement of the new classes -/
 def FragAny (d : Gen.D) (s : Stmt) : Bool :=
   (match s with
    | .select q => TQ2.FragQ2 d q
    | .createTable c => TD.FragCreate d c
-   | _ => false) || TDM.FragStmt d s || FragRest d s
-/-- **the token-level printer of the union** (the renderings of the query developments agree where both apply:
-`C03.fragQ_sub_fragQ2`) -/
+   | _ => false) || TDM2.FragStmt d s || FragRest d s
+/-- **the token-level printer of the union** (on `TDM.FragStmt` it is `TDM.toksStmt`: `TDM2.fragStmt_sub`) -/
 def toksAny (d : Gen.D) : Stmt → List Tok
   | .select q => toksSel d q
   | .createTable c => TD.toksCreate d c
-  | .insertValues h vs => TDM.toksStmt d (.insertValues h vs)
-  | .insertSelect h q => TDM.toksStmt d (.insertSelect h q)
-  | .update ws t sets wh ob lm => TDM.toksStmt d (.update ws t sets wh ob lm)
-  | .delete t wh ob lm => TDM.toksStmt d (.delete t wh ob lm)
+  | .insertValues h vs => TDM2.toksStmt d (.insertValues h vs)
+  | .insertSelect h q => TDM2.toksStmt d (.insertSelect h q)
+  | .update ws t sets wh ob lm => TDM2.toksStmt d (.update ws t sets wh ob lm)
+  | .delete t wh ob lm => TDM2.toksStmt d (.delete t wh ob lm)
   | s => toksRest d s
 
 /-- what may follow a statement: nothing, or a `;` that continues nothing -/
